@@ -6,8 +6,8 @@ from ..tlc import MachineryError
 from . import interp_common as IC
 from ..realise import interp_real as IR
 
-GROUPS = {"quick": ["InitPos(3)", "InitSpace(3)", "InitState(3)", "InitColor(3)", "InitColorRes(2)", "InitBad", "InitBad2", "InitZero", "InitZero2", "InitMixed"],
-          "thorough": ["InitPos(4)", "InitSpace(4)", "InitState(4)", "InitColor(4)", "InitColorRes(3)", "InitBad", "InitBad2", "InitZero", "InitZero2", "InitMixed"]}
+GROUPS = {"quick": ["InitPos(3)", "InitSpace(3)", "InitState(3)", "InitColor(3)", "InitColorRes(2)", "InitPass(2)", "InitBad", "InitBad2", "InitZero", "InitZero2", "InitMixed"],
+          "thorough": ["InitPos(4)", "InitSpace(4)", "InitState(4)", "InitColor(4)", "InitColorRes(3)", "InitPass(3)", "InitBad", "InitBad2", "InitZero", "InitZero2", "InitMixed"]}
 
 
 def run(ck):
